@@ -24,6 +24,10 @@ struct track
 {
     int fd4;
     int fd6;
+    /* a socket keeps its local address across connection attempts,
+       and may not be bound twice */
+    bool fd4_bound;
+    bool fd6_bound;
     int fd_reg_id;
     double tcp_connect_timeout;
     struct tcp_opts tcp_opts;
@@ -132,6 +136,12 @@ static int track_get_current_fd(struct track *track)
     return *fd;
 }
 
+static bool *track_get_current_bound_ptr(struct track *track)
+{
+    return track_get_current_family(track) == AF_INET ?
+	&track->fd4_bound : &track->fd6_bound;
+}
+
 static void track_disassociate_current_fd(struct track *track)
 {
     int *fd = track_get_current_fd_ptr(track);
@@ -204,7 +214,7 @@ static void track_connect_next(struct track *track)
 	return;
     }
 
-    if (track->local_ip != NULL) {
+    if (track->local_ip != NULL && !*track_get_current_bound_ptr(track)) {
 	struct sockaddr_storage laddr;
 	int64_t scope = track_get_current_scope(track);
 
@@ -221,6 +231,8 @@ static void track_connect_next(struct track *track)
 	    track_connect_next(track);
 	    return;
 	}
+
+	*track_get_current_bound_ptr(track) = true;
     }
 
     ut_assert(track->fd_reg_id == -1);
